@@ -155,17 +155,19 @@ Definition extract_atom (d : nat) (flag : bool) (m : list (string * string)) (e 
   | _ => Err EValue
   end.
 
-(* the nesting loop over the kept components *)
+(* the nesting loop over the kept components: the loop runs over reversed(components), i.e. it is a right fold;
+   generic in the node type so that the proofs can nest exact expressions the same way *)
+Definition nestg {A} (bin : A -> A -> A) (numfirst : bool) (comps : list A) : option A :=
+  fold_right (fun c (acc : option A) =>
+                match acc with
+                | None => Some c
+                | Some n => Some (if numfirst then bin n c else bin c n)
+                end) None comps.
+
 Definition nest (op : string) (comps : list pexpr) : option pexpr :=
   match comps with
   | [] => None
-  | c0 :: _ =>
-      let numfirst := is_number_p c0 in
-      fold_left (fun (acc : option pexpr) c =>
-                   match acc with
-                   | None => Some c
-                   | Some n => Some (if numfirst then PBin op n c else PBin op c n)
-                   end) (rev comps) None
+  | c0 :: _ => nestg (PBin op) (is_number_p c0) comps
   end.
 
 Fixpoint pow_chain (base : pexpr) (n : nat) : pexpr :=   (* n extra factors *)
